@@ -27,7 +27,7 @@ TClass == /\ Ev.e = "class"
                  /\ (Ev.rc # "ECONF_SUCCESS" => ~Ev.obj),
                  [rc |-> ReadCodes])
 \* C14
-OsLimited(kind, len) == (kind = "filename" /\ len > 255) \/ (kind = "path" /\ len >= 4096)
+OsLimited(kind, len) == (kind \in {"filename", "mainname"} /\ len > 255) \/ (kind = "path" /\ len >= 4096)
 TLong == /\ Ev.e = "long"
          /\ IF OsLimited(Ev.kind, Ev.len)
             THEN Chk(Ev.rc # "ECONF_SUCCESS", [refused_by_os |-> TRUE])
